@@ -158,6 +158,9 @@ def run_pca(ctx, rng, comp, d, centre, kind):
     chunks = [X[a:b] for a, b in zip(cuts[:-1], cuts[1:])]
     m = PCAVectorModel(chunks[0].copy(), centre=centre)
     for c in chunks[1:]:
+        if m.n_components > 1 and rng.random() < 0.35:
+            # lowering the active count is documented as non-destructive: later increments see the whole model
+            m.n_active_components = int(rng.integers(1, m.n_components)) if rng.random() < 0.6 else float(rng.uniform(0.3, 0.9)) * m._total_variance_ratio()
         m.increment(c.copy() if rng.random() < 0.5 else [row.copy() for row in c])
     return m, X
 
